@@ -3,7 +3,7 @@ import NfpmModel.Bytes
 namespace Nfpm.Reviewed
 open Nfpm
 def accepted_deb_compression : List Bytes := [b!"", b!"gzip", b!"xz", b!"zstd", b!"none"]
-/-- explicit cases of the method switch; every other value (incl. "debsign") takes the default arm -/
+/-- the method values that do not behave like the default (debsign) -/
 def accepted_deb_signature_method_cases : List Bytes := [b!"dpkg-sig"]
 def accepted_deb_signature_type : List Bytes := [b!"origin", b!"maint", b!"archive"]
 def accepted_version_schema : List Bytes := [b!"none", b!"semver"]
